@@ -164,8 +164,10 @@ def gen_key(rng, used):
 
 def generate(seed, idx, tier):
     rng = prng.stream(seed, PROP, idx, 'scenario')
+    # 'data-named-meta': a data file whose name happens to end in _metadata;
+    # every update then says is_metadata_file=False explicitly
     target = rng.choice(('data', 'data', 'data', '_metadata', '_metadata',
-                         '_common_metadata', 'part'))
+                         '_common_metadata', 'part', 'data-named-meta'))
     initial = {}
     used = set()
     # 4% of the histories carry values of 100 kB / 250 kB (plain ones, and
@@ -202,6 +204,17 @@ def generate(seed, idx, tier):
                 key = spell(kb, rng)
                 upd.append([enc(key), enc(val)])
                 model[kb] = as_bytes(val)
+                seen.add(kb)
+            elif r < 0.36 and present:                   # no-op entry
+                # replaces a key by the value it already has (among entries
+                # that do change something)
+                kb = rng.choice(sorted(present))
+                cur = model[kb]
+                try:
+                    val = cur.decode('utf-8') if rng.random() < 0.6 else cur
+                except UnicodeDecodeError:
+                    val = cur
+                upd.append([enc(spell(kb, rng)), enc(val)])
                 seen.add(kb)
             elif r < 0.55 and present:                   # remove present
                 kb = rng.choice(sorted(present))
@@ -304,6 +317,7 @@ def execute(case):
         return _execute(case, fs, res, cnt, probes, bump, violation, fw,
                         update_file_custom_metadata)
     finally:
+        D.FILELIKE.clear()
         D.cleanup(fs)
 
 
@@ -321,8 +335,11 @@ def _execute(case, fs, res, cnt, probes, bump, violation, fw,
     target = case['target']
     is_meta = target in ('_metadata', '_common_metadata')
     try:
-        if target == 'data':
-            path = D.ds_path(fs, 'one.parq')
+        if target in ('data', 'data-named-meta'):
+            path = D.ds_path(fs, 'one.parq' if target == 'data'
+                             else 'sensors_metadata')
+            if target != 'data':
+                D.FILELIKE.add(path)
             if case.get('cat_append'):
                 # a categorical column whose appended row group has more
                 # categories: the summary's pandas entry would change if
@@ -397,7 +414,8 @@ def _execute(case, fs, res, cnt, probes, bump, violation, fw,
             fs.floors = {path: rb['start']}
             seq0 = fs.seq
             def call():
-                if upd.get('flag') == 'explicit':
+                if upd.get('flag') == 'explicit' or \
+                        target == 'data-named-meta':
                     update_file_custom_metadata(path, arg,
                                                 is_metadata_file=is_meta)
                 else:
